@@ -535,6 +535,17 @@ def run(tier, seed):
             except Exception:  # noqa: BLE001
                 pass
 
+    # ---- the candidate repairs (design.d/C08.md): the repaired model, executed at Float, meets the oracle
+    for u0 in units:
+        for u1 in units:
+            if u0.kind == "diff" and u1.kind == "point":
+                ask(f"c08.fixed.add\t{u0.wire}\t{u1.wire}\t{f2b(1.0)}\t{f2b(50.0)}", ("fixed.add", u0, u1))
+    for u in units:
+        ask(f"c08.fixed.diff\t{u.wire}\t{f2b(1.0)}\t{f2b(10.0)}", ("fixed.diff", u))
+        if u.kind == "point":
+            for mop, marg in (("sqrt", ""), ("cbrt", ""), ("reciprocal", ""), ("power", "3"), ("mulreduce", "3"), ("square", "")):
+                ask(f"c08.fixed.unary\t{mop}\t{marg}\t{u.wire}", ("fixed.unary", u, mop))
+
     # ---- correspondence: ask the model ---------------------------------------------------------
     try:
         replies = core.Model("drv_c08").ask([m[0] for m in model])
@@ -597,6 +608,24 @@ def compare(chk, line, exp, rep):
               and rep[3] == repr(u.unit) and rep[4] == str(u.unit) and (rep[5] == "1") == sp)
         if not ok:
             chk.disagree("c08.unit", f"{u.name}: model {rep} vs unyt ({u.unit.base_value}, {u.unit.base_offset}, {u.unit!r}, {u.unit!s}, split={sp})")
+    elif kind == "fixed.add":
+        _, u0, u1 = exp
+        if rep[0] == "ok":
+            msg = t_check_additive("add", u0.name, [1.0], u1.name, [50.0], rep[1].replace(":", ""), [core.b2f(rep[2])])
+            if msg:
+                chk.disagree("c08.fixed.add", "the repaired model is not affine: " + msg)
+    elif kind == "fixed.diff":
+        _, u = exp
+        if rep[0] == "ok":
+            msg = t_check_additive("sub", u.name, [10.0], u.name, [1.0], rep[1].replace(":", ""), [core.b2f(rep[2])])
+            if msg:
+                chk.disagree("c08.fixed.diff", "the repaired model is not affine: " + msg)
+        elif u.kind == "diff":
+            chk.disagree("c08.fixed.diff", f"the repaired model refuses {u.name}: {rep}")
+    elif kind == "fixed.unary":
+        _, u, mop = exp
+        if rep[0] != "err":
+            chk.disagree("c08.fixed.unary", f"the repaired model does not refuse {mop} of {u.name}: {rep}")
     elif kind == "additive":
         _, op, u0, u1, i, x0, x1, outcomes = exp
         for (okind, fname), oc in outcomes.items():
